@@ -32,7 +32,7 @@ func init() {
 	register(&c15{base{
 		id:          "C15",
 		level:       lvlExploration,
-		rule:        "reference writers produce otherwise valid, fully repairable PAR1/PAR2 archives in which ONE declared file name comes from a corpus of traversal spellings (.., ../x, a/../../x, ./../x, absolute paths into a canary tree, '.', empty, trailing and doubled slashes, backslash variants, embedded NUL, 300-byte names, dot-prefixed names, deep a/b/../../../x forms, Unicode look-alikes for PAR1) and that file is 'missing' while enough recovery data exists to rebuild it; the archive directory sits inside a canary tree (parent with decoy files at every traversal target, sibling directories, an absolute-path target). the hostile name is carried by the file description packet or, for a third of the PAR2 cases, by an optional Unicode Filename packet attached to a benignly named file; Verify and Repair run through the library (snapshot of the whole tree before/after; absolute index path, and bare index name with the archive directory as current directory) and through the built par binary under strace (every successful create/write/unlink/rename/mkdir event). Any event or snapshot difference outside the index file's directory tree (PAR1: outside that directory itself) is a violation. Create mode: par2.Create must refuse inputs outside the index directory. A key is (format, name, position in the set, mode, target pre-exists?). Further carriers of the hostile name: a second description packet declaring the same file ID as a benign one; a PAR1 entry that is not saved in the parity set, placed first, carrying size and hashes of a missing saved file. Corpus includes parent references that only appear after one round of stripping and ones followed by ordinary components. Corpus includes control characters beside and inside the dots.. Further layout: a decoy main packet before the hostile description, the real one after it.. The strace layer also judges successful read-opens outside the archive's directory.",
+		rule:        "reference writers produce otherwise valid, fully repairable PAR1/PAR2 archives in which ONE declared file name comes from a corpus of traversal spellings (.., ../x, a/../../x, ./../x, absolute paths into a canary tree, '.', empty, trailing and doubled slashes, backslash variants, embedded NUL, 300-byte names, dot-prefixed names, deep a/b/../../../x forms, Unicode look-alikes for PAR1) and that file is 'missing' while enough recovery data exists to rebuild it; the archive directory sits inside a canary tree (parent with decoy files at every traversal target, sibling directories, an absolute-path target). the hostile name is carried by the file description packet or, for a third of the PAR2 cases, by an optional Unicode Filename packet attached to a benignly named file; Verify and Repair run through the library (snapshot of the whole tree before/after; absolute index path, and bare index name with the archive directory as current directory) and through the built par binary under strace (every successful create/write/unlink/rename/mkdir event). Any event or snapshot difference outside the index file's directory tree (PAR1: outside that directory itself) is a violation. Create mode: par2.Create must refuse inputs outside the index directory. A key is (format, name, position in the set, mode, target pre-exists?). Further carriers of the hostile name: a second description packet declaring the same file ID as a benign one; a PAR1 entry that is not saved in the parity set, placed first, carrying size and hashes of a missing saved file. Corpus includes parent references that only appear after one round of stripping and ones followed by ordinary components. Corpus includes control characters beside and inside the dots.. Further layout: a decoy main packet before the hostile description, the real one after it.. The strace layer also judges successful read-opens outside the archive's directory.. Modes lib-parent / cli-parent (index named ../set from a sub-directory).",
 		assumptions: append([]string{"on Linux a backslash is an ordinary file-name character; names are judged by where the operating system actually resolves them"}, commonAssumptions...),
 		opts:        core.WorkerOpts{CrashIsViolation: true, WallSeconds: 2400},
 	}})
